@@ -2,6 +2,7 @@ package props
 
 import (
 	"fmt"
+	"math"
 	"math/rand"
 	"strings"
 
@@ -388,6 +389,7 @@ func c04Run(c *core.C) {
 	r := c.R
 	for rep := 0; rep < 6; rep++ {
 		s := gen.NewScenario(r, 4, c04Opts)
+		countBig(c, s)
 		if r.Intn(3) == 0 {
 			// the same inside the token: a uniformly failing query in front of a block's check
 			bi := r.Intn(len(s.Blocks))
@@ -441,10 +443,84 @@ func c04Run(c *core.C) {
 			c.Count("via_snapshot", 1)
 		}
 		c04StringsAndQueries(c, tok)
+		c04BoundaryCompare(c, tok)
+		c04QueryFirst(c, s)
 		if gen.AuthPrintable(a) {
 			c04Check(c, "via-text", tok, a, true)
 			c.Count("via_text", 1)
 		}
+	}
+}
+
+// c04BoundaryCompare: checks that order integers far apart (their difference does not fit 64 bits),
+// decided by the reference.
+func c04BoundaryCompare(c *core.C, tok *lib.Token) {
+	r := c.R
+	vals := []int64{math.MinInt64, math.MinInt64 + 1, -7000000000000000000, -1 << 32, -1, 0, 1, 10, 1 << 32, 7000000000000000000, math.MaxInt64 - 1, math.MaxInt64}
+	x := ast.Var("x")
+	for k := 0; k < 6; k++ {
+		a, b := vals[r.Intn(len(vals))], vals[r.Intn(len(vals))]
+		op := []int{int(ast.BLessThan), int(ast.BLessOrEqual), int(ast.BGreaterThan), int(ast.BGreaterOrEqual)}[r.Intn(4)]
+		q := ast.Rule{Head: ast.P("query"), Body: []ast.Pred{ast.P("c04_num", x)}, Exprs: []ast.Expr{{ast.OV(x), ast.OV(ast.Int(b)), ast.OB(op)}}}
+		ac := ast.AuthContent{Facts: []ast.Pred{ast.P("c04_num", ast.Int(a))}, Policies: []ast.Policy{allowAll}}
+		if k%2 == 0 {
+			ac.Checks = []ast.Check{{Queries: []ast.Rule{q}}}
+		} else {
+			ac.Policies = []ast.Policy{{Allow: false, Queries: []ast.Rule{q}}, allowAll}
+		}
+		c04Check(c, "boundary-compare", tok, ac, false)
+		c.Count("boundary_compare_checks", 1)
+	}
+}
+
+// c04QueryFirst: the same authorizer is asked a query BEFORE Authorize; the verdict is still the
+// decision procedure's - in particular the authority block's rules have been applied. The
+// authority block gets a rule deriving a fact that an authorizer check (or the only allow policy) needs.
+func c04QueryFirst(c *core.C, s *gen.Scenario) {
+	x := ast.Var("x")
+	blocks := append([]ast.Block{}, s.Blocks...)
+	b0 := blocks[0]
+	b0.Facts = append(append([]ast.Pred{}, b0.Facts...), ast.P("c04_base_right", ast.Str("alice")))
+	b0.Rules = append(append([]ast.Rule{}, b0.Rules...), ast.Rule{Head: ast.P("c04_derived_right", x), Body: []ast.Pred{ast.P("c04_base_right", x)}})
+	blocks[0] = b0
+	tok, err := buildScenarioToken(c.Seed, fmt.Sprintf("c04-qf-%d-%d", c.Idx, len(blocks)), blocks)
+	if err != nil {
+		return
+	}
+	need := ast.Rule{Head: ast.P("query"), Body: []ast.Pred{ast.P("c04_derived_right", ast.Str("alice"))}}
+	a := ast.AuthContent{Facts: s.Auth.Facts, Rules: s.Auth.Rules, Checks: append(append([]ast.Check{}, s.Auth.Checks...), ast.Check{Queries: []ast.Rule{need}}), Policies: s.Auth.Policies}
+	if c.R.Intn(2) == 0 {
+		a = ast.AuthContent{Facts: s.Auth.Facts, Rules: s.Auth.Rules, Checks: s.Auth.Checks, Policies: []ast.Policy{{Allow: true, Queries: []ast.Rule{need}}}}
+	}
+	d := ref.Authorize(tok.Blocks, a)
+	if d.Class == "" {
+		return
+	}
+	c.Eval(1)
+	var o lib.Obs
+	pi := lib.Try(func() {
+		az, err := tok.B.AuthorizerFor(biscuit.WithSingularRootPublicKey(tok.Pub), lib.BigLimits())
+		if err != nil {
+			o = lib.Obs{Class: lib.FAIL, Err: "authorizer: " + err.Error()}
+			return
+		}
+		lib.AddContent(az, a)
+		probes := append([]ast.Rule{{Head: ast.P("probe", x), Body: []ast.Pred{ast.P("c04_base_right", x)}}}, s.Probes...)
+		for i := 0; i < 1+c.R.Intn(2) && i < len(probes); i++ {
+			lib.QueryKeys(az, probes[i])
+		}
+		o = lib.ObserveOn(az, ast.AuthContent{}, nil)
+	})
+	if pi != nil {
+		o = lib.Obs{Class: lib.PANIC, Panic: pi}
+	}
+	c.Count("query_first_cases", 1)
+	if o.Class == lib.LIMIT {
+		return
+	}
+	if string(o.Class) != d.Class {
+		c.Violate(fmt.Sprintf("verdict-after-query/%s-where-%s", o.Class, d.Class), fmt.Sprintf("Query, then Authorize on the same authorizer: library says %s, decision procedure says %s (%s)", o.Class, d.Class, d.Signature),
+			map[string]any{"token_blocks": tok.Blocks, "authorizer": a, "library": o, "reference": d.Class})
 	}
 }
 
